@@ -242,6 +242,8 @@ inline std::string udq_tokens(const Opm::UDQDefine& d) {
 // Observation of schedule state `step` restricted to what the C05 statement promises.
 inline void sched_restart(const Opm::Schedule& sched, std::size_t step, const Opm::SummaryState& st, Sweep& o) {
     const auto& S = sched[step];
+    // prevailing WHISTCTL override (decides the control of every later WCONHIST)
+    o.I("whistctl", "whistctl", (int)S.whistctl());
     // wells
     { std::string s; for (const auto& wn : sched.wellNames(step)) s += wn + ","; o.S("wells", "well.names", s); }
     for (const auto& wn : sched.wellNames(step)) well_items(sched.getWell(wn, step), st, o);
